@@ -393,6 +393,30 @@ func cutsFor(it item, tier string, rng *rand.Rand) []int {
 	return out
 }
 
+// loadOSFile writes data (+ a sparse tail) to a file and loads from the *os.File itself.
+func loadOSFile(dir, loader string, data []byte, tail int) (pulled int, o obs.Obs, err error) {
+	f, err := os.CreateTemp(dir, "c18-*.img")
+	if err != nil {
+		return 0, o, err
+	}
+	defer os.Remove(f.Name())
+	defer f.Close()
+	if _, err = f.Write(data); err != nil {
+		return 0, o, err
+	}
+	if tail > 0 {
+		if err = f.Truncate(int64(len(data) + tail)); err != nil {
+			return 0, o, err
+		}
+	}
+	if _, err = f.Seek(0, io.SeekStart); err != nil {
+		return 0, o, err
+	}
+	o = obs.RunReader(loader, f)
+	off, err := f.Seek(0, io.SeekCurrent)
+	return int(off), o, err
+}
+
 // iccOutcome runs the ICC profile reader behind an arbitrary buffered reader.
 // bufSize > 0: bufio of that size; 0: default bufio; -1: the instrumented source itself in its
 // rich presentation (Seek, ReadAt, WriteTo, ... like *os.File); -2: a *bytes.Reader (what
@@ -631,33 +655,62 @@ func loadsCmd(args []string) error {
 		}
 		scheds := []obs.Sched{obs.Full, {Name: "fixed1", Sizes: []int{1}, Cyclic: true}, {Name: "fixed4097", Sizes: []int{4097}, Cyclic: true},
 			{Name: "fixed100000", Sizes: []int{100000}, Cyclic: true}}
-		parallel(len(well), func(i int) {
+		tscheds := []obs.Sched{obs.Full, {Name: "full+eof", WithErr: true}, {Name: "fixed7+eof", Sizes: []int{7}, Cyclic: true, WithErr: true}}
+		// files with a lot of metadata (200 KB profiles), loaded just before a measured load in the
+		// serial pass: how far a load reads ahead may not depend on what was loaded before it
+		bigProf := gen.Payload(200_000, 99, false)
+		bparts := gen.SplitICC(bigProf, 4)
+		bigJ, _ := gen.BuildJPEG([]gen.JSeg{gen.SOI(), gen.ICCSeg(1, 4, bparts[0]), gen.ICCSeg(2, 4, bparts[1]), gen.ICCSeg(3, 4, bparts[2]), gen.ICCSeg(4, 4, bparts[3]),
+			gen.SOF(0xC0, 8, 5, 6, gen.StdComps(3, 0x11)), gen.SOS(3, gen.EntropyBytes(20, 1)), gen.EOI()})
+		bigP, _ := gen.BuildPNG([]gen.PNGChunk{gen.IHDR(3, 4, 8, 2, 0), gen.ICCP("big", 0, gen.Deflate(bigProf, 0)), gen.Chunk("IDAT", gen.Payload(20, 2, false)), gen.Chunk("IEND", nil)})
+		bigW, _ := gen.BuildWebP([]gen.WChunk{gen.VP8X(gen.VP8XICC, 5, 6), gen.WC("ICCP", bigProf), gen.VP8(5, 6, 0, 0, gen.VP8Body(20))}, -1)
+		bigOf := map[string][]byte{"jpeg": bigJ, "png": bigP, "webp": bigW}
+		measure := func(i int, history string) {
 			it := well[i]
 			for li, loader := range []string{it.Fmt, "auto"} {
 				s := scheds[(i+li)%len(scheds)]
 				shape := []string{"plain", "rich0", "rich5"}[(i/2+li)%3]
+				if history == "after-big" {
+					obs.Run(loader, obs.NewSource(bigOf[it.Fmt], -1, nil, obs.Full), false, false)
+					s = obs.Full // a source that satisfies any request in full
+				}
 				src := obs.NewSource(it.Data, -1, nil, s).WithShape(shape)
 				src.Tail = it.Tail
 				src.Cut = len(it.Data) + it.Tail
 				o := obs.Run(loader, src, false, false)
 				needed := it.L.Needed(it.HasICC)
-				// reload the file truncated just after `needed`
+				// reload the file truncated just after `needed` (its last delivery may come with EOF)
 				tdata, ttail := it.Data, 0
 				if needed <= len(it.Data) {
 					tdata = it.Data[:needed]
 				} else {
 					ttail = needed - len(it.Data)
 				}
-				tsrc := obs.NewSource(tdata, -1, nil, obs.Full)
+				ts := tscheds[(i+li)%len(tscheds)]
+				tsrc := obs.NewSource(tdata, -1, nil, ts)
 				tsrc.Tail, tsrc.Cut = ttail, len(tdata)+ttail
 				to := obs.Run(loader, tsrc, false, false)
 				sink.put(map[string]interface{}{
-					"item": it.Name, "loader": loader, "sched": s.Name, "shape": shape,
+					"item": it.Name, "loader": loader, "sched": s.Name, "shape": shape, "history": history, "trunc_sched": ts.Name,
 					"layout": map[string]interface{}{"header_end": it.L.HeaderEnd, "icc_end": it.L.ICCEnd, "pix_start": it.L.PixStart, "total": it.L.Total, "has_icc": it.HasICC},
 					"pulled": o.Pulled, "ok": o.OK, "outcome": o.Outcome(), "trunc_outcome": to.Outcome(), "maxreq": o.MaxReq,
 				})
+				// the same file as a real *os.File (sparse beyond the data): what was consumed is the file offset
+				if (i+li)%4 == 0 && it.Tail <= 1<<20 && history == "fresh" {
+					if pulled, oo, err := loadOSFile(*outDir, loader, it.Data, it.Tail); err == nil {
+						sink.put(map[string]interface{}{
+							"item": it.Name, "loader": loader, "sched": "os.File", "shape": "os.File", "history": history, "trunc_sched": ts.Name,
+							"layout": map[string]interface{}{"header_end": it.L.HeaderEnd, "icc_end": it.L.ICCEnd, "pix_start": it.L.PixStart, "total": it.L.Total, "has_icc": it.HasICC},
+							"pulled": pulled, "ok": oo.OK, "outcome": oo.Outcome(), "trunc_outcome": to.Outcome(), "maxreq": 0,
+						})
+					}
+				}
 			}
-		})
+		}
+		parallel(len(well), func(i int) { measure(i, "fresh") })
+		for i := range well { // serially: nothing else touches the library in between
+			measure(i, "after-big")
+		}
 		done()
 		stats["c18"] = sink.n
 	}
